@@ -957,6 +957,13 @@ def registration_checks(ck, rng):
 SEQ_TYPES = [("uint", 64), "string", "bool", ("uint", 8), "address", ("tuple", ("uint", 16), "bool")]
 
 
+def compile_text(cs, default_version=None):
+    opt = ""
+    if cs.get("fp") is not None or cs.get("ss") is not None:
+        opt = ", optimize=OptimizeOptions(frame_pointers=%r, scratch_slots=%r)" % (cs.get("fp"), cs.get("ss"))
+    return "compile_program(version=%s%s)" % (cs.get("version", default_version), opt)
+
+
 def seq_text(seq):
     out = []
     for i, sb in enumerate(seq["subs"]):
@@ -965,6 +972,9 @@ def seq_text(seq):
                                                      ", docstring %r" % sb["doc"] if sb.get("doc") else ""))
     for ri, regs in enumerate(seq["routers"]):
         for rg in regs:
+            if "compile" in rg:
+                out.append("R%d.%s" % (ri, compile_text(rg["compile"], "V")))
+                continue
             kw = ""
             if rg.get("regname"):
                 kw += ", overriding_name=%r" % rg["regname"]
@@ -978,7 +988,7 @@ def seq_text(seq):
                 txt = "try: %s  [must be rejected: %s]" % (txt, {"dup": "signature already registered", "never": "never executed",
                                                                  "notabi": "not an ABIReturnSubroutine", "collide": "selector collides with an earlier method"}[rg["fail"]])
             out.append(txt)
-    return "; ".join(out)
+    return "; ".join(out) + "; every router: compile_program(version=V)"
 
 
 def seq_expected(seq, rg):
@@ -1020,15 +1030,68 @@ def seq_check(seq, version=8):
         exec("def %s(%s):\n%s    return __body([%s], %s)\n" % (
             sb["name"], ", ".join(parts), doc, ", ".join("p%d" % i for i in range(len(sb["params"]))), "output" if sb["ret"] is not None else "None"), g)
         subs.append(pt.ABIReturnSubroutine(g[sb["name"]]))
+    def entries_diff(ri, got, exp, when):
+        if got == exp:
+            return False
+        k = next((i for i, (a_, b_) in enumerate(zip(got, exp)) if a_ != b_), min(len(got), len(exp)))
+        g_, e_ = (got[k] if k < len(got) else None), (exp[k] if k < len(exp) else None)
+        fails.append("contract of R%d, entry %d, %s: %s — registered: %s" % (
+            ri, k, when, g_ and {"name": g_[0], "args": g_[1], "returns": g_[2], "desc": g_[3], "selector": g_[4].hex()},
+            e_ and {"name": e_[0], "args": e_[1], "returns": e_[2], "desc": e_[3], "selector": e_[4].hex()}))
+        return True
+
+    def state_check(ri, teal, contract, regs_ok, when):
+        """after a compile: the contract lists the registrations so far, THIS approval program dispatches exactly on their selectors,
+        and a client that follows contract entry k reaches the subroutine registered k-th"""
+        nonlocal n
+        exp = [seq_expected(seq, rg) for rg in regs_ok]
+        n += 1
+        entries_diff(ri, contract_entries(contract), exp, when)
+        tsel = teal_selectors(teal)
+        if sorted(s_ for s_, _ in tsel if s_ is not None) != sorted(e[4] for e in exp) or any(s_ is None for s_, _ in tsel):
+            fails.append("approval program of R%d %s dispatches on %s, registered selectors are %s" % (
+                ri, when, [(s_.hex() if s_ else None, g_) for s_, g_ in tsel], [(e[4].hex(), e[0]) for e in exp]))
+        msel = [(s_, CL.selector(s_)) for s_ in method_lines(teal)]
+        for k, rg in enumerate(regs_ok):
+            if k >= len(contract.methods):
+                break
+            sb = seq["subs"][rg["sub"]]
+            rng = random_for(seq, ri, k)
+            args = gen_args(rng, sb["params"])
+            c = CL.client_call(contract.methods[k].name, [A.arc4_str(t) for t in sb["params"]], "void" if sb["ret"] is None else A.arc4_str(sb["ret"]), args, SENDER, APP_ID)
+            c.app_args[0] = contract.methods[k].get_selector()
+            ctx, _gi = call_ctx(c, [], [], msel)
+            verdict, logs = logs_of(mdl.ask((S("run"), ctx, teal)))
+            n += 1
+            if verdict != "approve" or not logs or logs[0] != b"sub-%d" % rg["sub"]:
+                fails.append("a client following entry %d of R%d's contract %s (%s, selector %s) gets verdict %r, logs %r from the approval program of that compile; registered there: f%d" % (
+                    k, ri, when, contract.methods[k].get_signature(), contract.methods[k].get_selector().hex(), verdict, [l.hex() for l in (logs or [])][:2], rg["sub"]))
+
+    def reg_kw(rg):
+        kw = {}
+        if rg.get("regname"):
+            kw["overriding_name"] = rg["regname"]
+        if rg.get("desc") is not None:
+            kw["description"] = rg["desc"]
+        return kw
+
+    def do_compile(router, cs):
+        opt = None
+        if cs.get("fp") is not None or cs.get("ss") is not None:
+            opt = pt.OptimizeOptions(frame_pointers=cs.get("fp"), scratch_slots=cs.get("ss"))
+        return router.compile_program(version=cs.get("version", version), optimize=opt)
+
     routers, early, early_objs = [], [], []
-    for ri, regs in enumerate(seq["routers"]):
+    for ri, steps in enumerate(seq["routers"]):
         router = pt.Router("R%d" % ri)
-        for rg in regs:
-            kw = {}
-            if rg.get("regname"):
-                kw["overriding_name"] = rg["regname"]
-            if rg.get("desc") is not None:
-                kw["description"] = rg["desc"]
+        done = []
+        for si_, rg in enumerate(steps):
+            if "compile" in rg:
+                teal, _c, contract = do_compile(router, rg["compile"])
+                state_check(ri, teal, contract, list(done), "at compile #%d (%s, after %d registrations)" % (
+                    sum(1 for x in steps[: si_ + 1] if "compile" in x), compile_text(rg["compile"], version), len(done)))
+                continue
+            kw = reg_kw(rg)
             if rg.get("fail"):
                 target = subs[rg["sub"]]
                 if rg["fail"] == "never":
@@ -1042,18 +1105,13 @@ def seq_check(seq, version=8):
                     pass
                 continue
             router.add_method_handler(subs[rg["sub"]], **kw)
+            done.append(rg)
         teal, _c, contract = router.compile_program(version=version)
-        if any(rg.get("fail") for rg in regs):
+        if any(rg.get("fail") for rg in steps):
             # the same router with only the successful registrations
             ref = pt.Router("R%d" % ri)
-            for rg in regs:
-                if not rg.get("fail"):
-                    kw = {}
-                    if rg.get("regname"):
-                        kw["overriding_name"] = rg["regname"]
-                    if rg.get("desc") is not None:
-                        kw["description"] = rg["desc"]
-                    ref.add_method_handler(subs[rg["sub"]], **kw)
+            for rg in done:
+                ref.add_method_handler(subs[rg["sub"]], **reg_kw(rg))
             rteal, _rc, rcontract = ref.compile_program(version=version)
             n += 1
             if contract.dictify() != rcontract.dictify():
@@ -1063,53 +1121,22 @@ def seq_check(seq, version=8):
             #  evaluated in this process — C11's subject; the dispatch constants are compared with the registrations below)
             if sorted(s_ for s_, _ in teal_selectors(teal) if s_) != sorted(s_ for s_, _ in teal_selectors(rteal) if s_):
                 fails.append("approval program of R%d dispatches on other selectors than a router built with only the successful registrations" % ri)
-        routers.append(router)
+        routers.append((router, done))
         early.append(contract_entries(contract))
         early_objs.append(contract)
-    for ri, regs in enumerate(seq["routers"]):
-        teal, _c, contract = routers[ri].compile_program(version=version)
-        late = contract_entries(contract)
-        regs = [rg for rg in regs if not rg.get("fail")]
-        exp = [seq_expected(seq, rg) for rg in regs]
-        n += 1
-        for when, got in (("when router R%d was built" % ri, early[ri]), ("after all routers were built", late),
-                          ("in the contract object returned earlier, re-read after all routers were built", contract_entries(early_objs[ri]))):
-            if got != exp:
-                k = next((i for i, (a, b) in enumerate(zip(got, exp)) if a != b), min(len(got), len(exp)))
-                g_, e_ = (got[k] if k < len(got) else None), (exp[k] if k < len(exp) else None)
-                fails.append("contract of R%d, entry %d, %s: %s — registered: %s" % (
-                    ri, k, when, g_ and {"name": g_[0], "args": g_[1], "returns": g_[2], "desc": g_[3], "selector": g_[4].hex()},
-                    e_ and {"name": e_[0], "args": e_[1], "returns": e_[2], "desc": e_[3], "selector": e_[4].hex()}))
-                break
-        if late != early[ri] and not fails:
-            fails.append("contract of R%d changed after later routers were built: %r -> %r" % (ri, early[ri], late))
-        tsel = teal_selectors(teal)
-        if sorted(s_ for s_, _ in tsel if s_ is not None) != sorted(e[4] for e in exp) or any(s_ is None for s_, _ in tsel):
-            fails.append("approval program of R%d dispatches on %s, registered selectors are %s" % (
-                ri, [(s_.hex() if s_ else None, g_) for s_, g_ in tsel], [(e[4].hex(), e[0]) for e in exp]))
+    for ri, (router, done) in enumerate(routers):
+        teal, _c, contract = router.compile_program(version=version)
+        exp = [seq_expected(seq, rg) for rg in done]
+        if not entries_diff(ri, early[ri], exp, "when router R%d was built" % ri):
+            entries_diff(ri, contract_entries(early_objs[ri]), exp, "in the contract object returned earlier, re-read after all routers were built")
+        state_check(ri, teal, contract, done, "after all routers were built (version %d)" % version)
         # model: spec_of of every registration
-        for k, rg in enumerate(regs):
+        for k, rg in enumerate(done):
             sb = seq["subs"][rg["sub"]]
             r = mdl.ask((S("sigstr"), sb["name"], rg.get("regname") or sb["name"], tuple(A.ty_sx(t) for t in sb["params"]),
                          S("void") if sb["ret"] is None else A.ty_sx(sb["ret"])))
             if k < len(contract.methods) and contract.methods[k].get_signature() != r[3]:
                 corr.append("R%d entry %d: real contract signature %r, model spec_of %r" % (ri, k, contract.methods[k].get_signature(), r[3]))
-        # behaviour: a client that follows contract entry k must reach the subroutine registered k-th
-        msel = [(s_, CL.selector(s_)) for s_ in method_lines(teal)]
-        for k, rg in enumerate(regs):
-            if k >= len(contract.methods):
-                break
-            sb = seq["subs"][rg["sub"]]
-            rng = random_for(seq, ri, k)
-            args = gen_args(rng, sb["params"])
-            c = CL.client_call(contract.methods[k].name, [A.arc4_str(t) for t in sb["params"]], "void" if sb["ret"] is None else A.arc4_str(sb["ret"]), args, SENDER, APP_ID)
-            c.app_args[0] = contract.methods[k].get_selector()
-            ctx, _gi = call_ctx(c, [], [], msel)
-            verdict, logs = logs_of(mdl.ask((S("run"), ctx, teal)))
-            n += 1
-            if verdict != "approve" or not logs or logs[0] != b"sub-%d" % rg["sub"]:
-                fails.append("a client following entry %d of R%d's contract (%s, selector %s) gets verdict %r, logs %r; registered there: f%d" % (
-                    k, ri, contract.methods[k].get_signature(), contract.methods[k].get_selector().hex(), verdict, [l.hex() for l in (logs or [])][:2], rg["sub"]))
     return fails, corr, n
 
 
@@ -1167,6 +1194,18 @@ def gen_sequences(rng, thorough):
                 out.append({"subs": [dep(doc)], "routers": [[ra], [rb]]})
     # (C) three routers
     out.append({"subs": [dep(None)], "routers": [[{"sub": 0, "regname": "a"}], [{"sub": 0}], [{"sub": 0, "regname": "c", "desc": "third"}]]})
+    # (F) compiles interleaved with registrations: compile, register more, compile again with the SAME (version, optimize) and with
+    #     different ones; every compile's program must dispatch on everything registered so far
+    wd0 = {"name": "withdraw", "params": [U, "string"], "ret": None, "doc": None}
+    same = {"compile": {}}
+    for doc in (None, "Deposit some amount."):
+        S2 = [dep(doc), wd0]
+        out.append({"subs": S2, "routers": [[{"sub": 0}, same, {"sub": 1}]]})
+        out.append({"subs": S2, "routers": [[{"sub": 0}, same, same, {"sub": 1, "regname": "take"}, same, {"sub": 0, "regname": "put", "desc": "late"}]]})
+        out.append({"subs": S2, "routers": [[{"sub": 0}, {"compile": {"version": 6}}, {"sub": 1}, {"compile": {"version": 6}}, {"compile": {"version": 9}}, {"sub": 0, "regname": "again"}, {"compile": {"version": 9}}]]})
+        out.append({"subs": S2, "routers": [[{"sub": 0}, {"compile": {"version": 8, "fp": False}}, {"sub": 1}, {"compile": {"version": 8, "fp": False}}, {"compile": {"version": 8, "fp": True}}, {"compile": {"version": 8}}]]})
+        out.append({"subs": S2, "routers": [[{"sub": 0}, same, {"sub": 0, "fail": "dup"}, same, {"sub": 1}], [{"sub": 1}, same, {"sub": 0}]]})
+        out.append({"subs": S2, "routers": [[{"sub": 1}, {"compile": {"version": 10, "ss": True}}, {"sub": 0, "desc": "d"}, {"compile": {"version": 10, "ss": True}}, {"compile": {"version": 10, "ss": False}}]]})
     # (E) attempts that the router must reject (TealInputError, caught by the caller) between successful registrations:
     #     a duplicate signature, an all-NEVER MethodConfig, a non-ABIReturnSubroutine, a colliding selector
     wd = {"name": "withdraw", "params": [U, "string"], "ret": None, "doc": None}
@@ -1214,6 +1253,8 @@ def gen_sequences(rng, thorough):
                     regs.append({"sub": rng.randrange(len(subs)), "regname": "never%d_%d" % (ri, k), "fail": "never", "desc": "x"})
                 elif r_ < 0.35:
                     regs.append({"sub": si, "fail": "notabi"})
+                if rng.random() < 0.3:
+                    regs.append({"compile": rng.choice([{}, {}, {"version": rng.choice([6, 7, 8, 9, 10])}, {"version": 8, "fp": False}, {"version": 9, "fp": True}])})
             if regs:
                 routers.append(regs)
         if routers:
@@ -1232,7 +1273,8 @@ def sequence_results(ck, seqs, results):
     nreg = {"sequences": len(seqs), "registrations": 0, "same_object_reregistered": 0, "checks": 0}
     for qi, r in results:
         seq = seqs[qi]
-        regs = [(ri, rg["sub"]) for ri, rr in enumerate(seq["routers"]) for rg in rr]
+        regs = [(ri, rg["sub"]) for ri, rr in enumerate(seq["routers"]) for rg in rr if "sub" in rg]
+        nreg["interleaved_compiles"] = nreg.get("interleaved_compiles", 0) + sum(1 for rr in seq["routers"] for rg in rr if "compile" in rg)
         nreg["registrations"] += len(regs)
         nreg["same_object_reregistered"] += len(regs) - len(set(s_ for _, s_ in regs))
         nreg["rejected_attempts"] = nreg.get("rejected_attempts", 0) + sum(1 for rr in seq["routers"] for rg in rr if rg.get("fail"))
